@@ -1,15 +1,30 @@
-/* Stub fftw3.h for the verification build only.
- * FFTW is not available in the sandbox (and not in the offline wheelhouse), so this
- * header only lets pbc_tools.c / cider_fft.c compile and libmcider link.  Every
- * function aborts loudly if it is ever called: no claimed check runs an FFT path. */
+/* Minimal functional fftw3.h for the verification builds only.
+ * FFTW is not available in the sandbox (and not in the offline wheelhouse).  The few
+ * planner calls the FFT wrapper makes (fftw_plan_many_dft / _r2c / _c2r with NULL embeds,
+ * one stride for input and output) are served by a naive O(N * sum n_d) separable DFT, so
+ * that the wrapper's own OpenMP code (write_fft_input / read_fft_output / run_ffts) can be
+ * executed under the simulated runtime.  It exists to make those loops runnable, not to be
+ * fast; the transform itself is computed by the calling thread and is the same function
+ * of its input whatever the team is.  Header-only (static functions): every plan is made
+ * and executed inside cider_fft.c. */
 #ifndef VERIF_STUB_FFTW3_H
 #define VERIF_STUB_FFTW3_H
 #include <complex.h>
+#include <math.h>
 #include <stddef.h>
 #include <stdio.h>
 #include <stdlib.h>
+#include <string.h>
 typedef double _Complex fftw_complex;
-typedef struct verif_stub_fftw_plan_s *fftw_plan;
+typedef struct verif_mini_fftw_plan_s {
+    int kind; /* 0 c2c, 1 r2c, 2 c2r */
+    int rank;
+    int n[8];
+    int howmany;
+    void *in, *out;
+    int stride, idist, odist;
+    int sign;
+} * fftw_plan;
 #define FFTW_FORWARD (-1)
 #define FFTW_BACKWARD (+1)
 #define FFTW_MEASURE (0U)
@@ -18,49 +33,167 @@ typedef struct verif_stub_fftw_plan_s *fftw_plan;
 #define FFTW_DESTROY_INPUT (1U << 0)
 #define FFTW_PRESERVE_INPUT (1U << 4)
 #define FFTW_UNALIGNED (1U << 1)
-#define VERIF_FFTW_DIE(name)                                                   \
-    do {                                                                       \
-        fprintf(stderr, "verif stub fftw: %s called (FFTW unavailable)\n",     \
-                name);                                                         \
-        abort();                                                               \
-    } while (0)
-static inline int fftw_init_threads(void) { return 1; }
-static inline void fftw_plan_with_nthreads(int n) { (void)n; }
-static inline void *fftw_malloc(size_t n) { return malloc(n); }
-static inline fftw_complex *fftw_alloc_complex(size_t n) {
-    return (fftw_complex *)malloc(n * sizeof(fftw_complex));
+#ifndef VERIF_MINI_FFTW_PI
+#define VERIF_MINI_FFTW_PI 3.14159265358979323846264338327950288
+#endif
+static int fftw_init_threads(void) { return 1; }
+static void fftw_plan_with_nthreads(int n) { (void)n; }
+static void *fftw_malloc(size_t n) { return malloc(n); }
+static void fftw_free(void *p) { free(p); }
+static void fftw_destroy_plan(fftw_plan p) { free(p); }
+static fftw_plan verif_mini_fftw_mk(int kind, int rank, const int *n, int howmany, void *in,
+                                    const int *inembed, int istride, int idist, void *out,
+                                    const int *onembed, int ostride, int odist, int sign) {
+    if (rank < 1 || rank > 8 || inembed != NULL || onembed != NULL || istride != ostride) {
+        fprintf(stderr, "verif mini fftw: unsupported plan (rank %d, embeds, strides)\n", rank);
+        abort();
+    }
+    fftw_plan p = (fftw_plan)calloc(1, sizeof(*p));
+    p->kind = kind;
+    p->rank = rank;
+    for (int i = 0; i < rank; i++)
+        p->n[i] = n[i];
+    p->howmany = howmany;
+    p->in = in;
+    p->out = out;
+    p->stride = istride;
+    p->idist = idist;
+    p->odist = odist;
+    p->sign = sign;
+    return p;
 }
-static inline void fftw_free(void *p) { free(p); }
-static inline void fftw_destroy_plan(fftw_plan p) { (void)p; }
-static inline void fftw_execute(const fftw_plan p) {
-    (void)p;
-    VERIF_FFTW_DIE("fftw_execute");
+static fftw_plan fftw_plan_many_dft(int rank, const int *n, int howmany, fftw_complex *in,
+                                    const int *inembed, int istride, int idist,
+                                    fftw_complex *out, const int *onembed, int ostride,
+                                    int odist, int sign, unsigned flags) {
+    (void)flags;
+    return verif_mini_fftw_mk(0, rank, n, howmany, in, inembed, istride, idist, out, onembed,
+                              ostride, odist, sign);
 }
-static inline fftw_plan fftw_plan_many_dft(int rank, const int *n, int howmany,
-                                           fftw_complex *in, const int *inembed,
-                                           int istride, int idist,
-                                           fftw_complex *out, const int *onembed,
-                                           int ostride, int odist, int sign,
-                                           unsigned flags) {
-    VERIF_FFTW_DIE("fftw_plan_many_dft");
-    return NULL;
+static fftw_plan fftw_plan_many_dft_r2c(int rank, const int *n, int howmany, double *in,
+                                        const int *inembed, int istride, int idist,
+                                        fftw_complex *out, const int *onembed, int ostride,
+                                        int odist, unsigned flags) {
+    (void)flags;
+    return verif_mini_fftw_mk(1, rank, n, howmany, in, inembed, istride, idist, out, onembed,
+                              ostride, odist, FFTW_FORWARD);
 }
-static inline fftw_plan fftw_plan_many_dft_r2c(int rank, const int *n,
-                                               int howmany, double *in,
-                                               const int *inembed, int istride,
-                                               int idist, fftw_complex *out,
-                                               const int *onembed, int ostride,
-                                               int odist, unsigned flags) {
-    VERIF_FFTW_DIE("fftw_plan_many_dft_r2c");
-    return NULL;
+static fftw_plan fftw_plan_many_dft_c2r(int rank, const int *n, int howmany, fftw_complex *in,
+                                        const int *inembed, int istride, int idist, double *out,
+                                        const int *onembed, int ostride, int odist,
+                                        unsigned flags) {
+    (void)flags;
+    return verif_mini_fftw_mk(2, rank, n, howmany, in, inembed, istride, idist, out, onembed,
+                              ostride, odist, FFTW_BACKWARD);
 }
-static inline fftw_plan fftw_plan_many_dft_c2r(int rank, const int *n,
-                                               int howmany, fftw_complex *in,
-                                               const int *inembed, int istride,
-                                               int idist, double *out,
-                                               const int *onembed, int ostride,
-                                               int odist, unsigned flags) {
-    VERIF_FFTW_DIE("fftw_plan_many_dft_c2r");
-    return NULL;
+/* in-place separable DFT of a dense row-major complex array with dims n[0..rank-1] */
+static void verif_mini_fftw_dense(fftw_complex *x, int rank, const int *n, int sign) {
+    size_t tot = 1;
+    for (int d = 0; d < rank; d++)
+        tot *= (size_t)n[d];
+    size_t inner = 1;
+    for (int d = rank - 1; d >= 0; d--) {
+        int nd = n[d];
+        if (nd > 1) {
+            fftw_complex *tw = (fftw_complex *)malloc(sizeof(fftw_complex) * (size_t)nd);
+            fftw_complex *line = (fftw_complex *)malloc(sizeof(fftw_complex) * (size_t)nd);
+            for (int k = 0; k < nd; k++)
+                tw[k] = cexp(sign * 2.0 * VERIF_MINI_FFTW_PI * I * (double)k / (double)nd);
+            size_t outer = tot / (inner * (size_t)nd);
+            for (size_t o = 0; o < outer; o++)
+                for (size_t i = 0; i < inner; i++) {
+                    fftw_complex *base = x + o * inner * (size_t)nd + i;
+                    for (int k = 0; k < nd; k++) {
+                        fftw_complex acc = 0;
+                        for (int j = 0; j < nd; j++)
+                            acc += base[(size_t)j * inner] * tw[((long)j * k) % nd];
+                        line[k] = acc;
+                    }
+                    for (int k = 0; k < nd; k++)
+                        base[(size_t)k * inner] = line[k];
+                }
+            free(tw);
+            free(line);
+        }
+        inner *= (size_t)nd;
+    }
+}
+static void fftw_execute(const fftw_plan p) {
+    int rank = p->rank;
+    const int *n = p->n;
+    size_t tot = 1, head = 1;
+    for (int d = 0; d < rank; d++)
+        tot *= (size_t)n[d];
+    for (int d = 0; d < rank - 1; d++)
+        head *= (size_t)n[d];
+    int nl = n[rank - 1];
+    int nh = nl / 2 + 1;
+    /* physical length of the real last dimension: padded when the transform is in place */
+    int inplace = (p->in == p->out);
+    int nreal = inplace ? 2 * nh : nl;
+    /* all inputs are gathered before any output is written: with interleaved (batch-last)
+     * in-place layouts the output of one transform overlaps the input of another */
+    fftw_complex *wall = (fftw_complex *)malloc(sizeof(fftw_complex) * tot * (size_t)p->howmany);
+    for (int pass = 0; pass < 2; pass++)
+    for (int t = 0; t < p->howmany; t++) {
+        fftw_complex *w = wall + (size_t)t * tot;
+        if (p->kind == 0) {
+            fftw_complex *in = (fftw_complex *)p->in + (size_t)t * (size_t)p->idist;
+            fftw_complex *out = (fftw_complex *)p->out + (size_t)t * (size_t)p->odist;
+            if (pass == 0) {
+                for (size_t i = 0; i < tot; i++)
+                    w[i] = in[i * (size_t)p->stride];
+                verif_mini_fftw_dense(w, rank, n, p->sign);
+            } else {
+                for (size_t i = 0; i < tot; i++)
+                    out[i * (size_t)p->stride] = w[i];
+            }
+        } else if (p->kind == 1) {
+            double *in = (double *)p->in + (size_t)t * (size_t)p->idist;
+            fftw_complex *out = (fftw_complex *)p->out + (size_t)t * (size_t)p->odist;
+            if (pass == 0) {
+                for (size_t h = 0; h < head; h++)
+                    for (int j = 0; j < nl; j++)
+                        w[h * (size_t)nl + (size_t)j] =
+                            in[(h * (size_t)nreal + (size_t)j) * (size_t)p->stride];
+                verif_mini_fftw_dense(w, rank, n, FFTW_FORWARD);
+            } else {
+                for (size_t h = 0; h < head; h++)
+                    for (int j = 0; j < nh; j++)
+                        out[(h * (size_t)nh + (size_t)j) * (size_t)p->stride] =
+                            w[h * (size_t)nl + (size_t)j];
+            }
+        } else {
+            fftw_complex *in = (fftw_complex *)p->in + (size_t)t * (size_t)p->idist;
+            double *out = (double *)p->out + (size_t)t * (size_t)p->odist;
+            /* rebuild the full spectrum from its Hermitian half: X[-k] = conj(X[k]) */
+            for (size_t h = 0; pass == 0 && h < head; h++) {
+                /* index of -h in the leading dimensions */
+                size_t rem = h, hneg = 0, mul = 1;
+                for (int d = rank - 2; d >= 0; d--) {
+                    size_t id = rem % (size_t)n[d];
+                    rem /= (size_t)n[d];
+                    size_t idn = (id == 0) ? 0 : (size_t)n[d] - id;
+                    hneg += idn * mul;
+                    mul *= (size_t)n[d];
+                }
+                for (int j = 0; j < nl; j++) {
+                    if (j < nh)
+                        w[h * (size_t)nl + (size_t)j] =
+                            in[(h * (size_t)nh + (size_t)j) * (size_t)p->stride];
+                    else
+                        w[h * (size_t)nl + (size_t)j] =
+                            conj(in[(hneg * (size_t)nh + (size_t)(nl - j)) * (size_t)p->stride]);
+                }
+            }
+            if (pass == 0)
+                verif_mini_fftw_dense(w, rank, n, FFTW_BACKWARD);
+            for (size_t h = 0; pass == 1 && h < head; h++)
+                for (int j = 0; j < nl; j++)
+                    out[(h * (size_t)nreal + (size_t)j) * (size_t)p->stride] =
+                        creal(w[h * (size_t)nl + (size_t)j]);
+        }
+    }
+    free(wall);
 }
 #endif
